@@ -105,6 +105,10 @@ func Generate(r *rng.R, tier string, n int, emit func(*common.Case)) {
 			}
 			in.Steps = append(in.Steps, lcw.StepIn{Cmd: c})
 		}
+		// "... so the installation can always be listed": every history ends with a listing
+		if k := len(in.Steps); k == 0 || in.Steps[k-1].Cmd.Kind != "list" {
+			in.Steps = append(in.Steps, lcw.StepIn{Cmd: lcw.Cmd{Kind: "list"}})
+		}
 		c, err := run(in)
 		if err != nil {
 			panic(err)
